@@ -86,10 +86,10 @@ RefText(p) == Sx!CanonText(Translate(p))
 (***************************************************************************)
 (* Layout and rendering                                                    *)
 (***************************************************************************)
-PjFields == {"plus", "eq", "lines", "eol", "cpos", "ctext", "order", "hdr", "outer"}
+PjFields == {"plus", "eq", "lines", "eol", "cpos", "order", "hdr", "outer"}
 PjDefault == [f \in PjFields |->
     CASE f = "plus" -> "none" [] f = "eq" -> "no" [] f = "lines" -> "one" [] f = "eol" -> "lf"
-      [] f = "cpos" -> "none" [] f = "ctext" -> "1" [] f = "order" -> "canon" [] f = "hdr" -> "canon"
+      [] f = "cpos" -> "none" [] f = "order" -> "canon" [] f = "hdr" -> "canon"
       [] f = "outer" -> "none"]
 PjAlts(f) ==
     CASE f = "plus"  -> {"all", "sp"}                 \* +proj=utm +zone=32   /   + proj=utm + zone=32
@@ -97,12 +97,11 @@ PjAlts(f) ==
       [] f = "lines" -> {"steps", "steps0"}           \* a line per step, indented or not
       [] f = "eol"   -> {"cr", "crlf"}
       [] f = "cpos"  -> {"top", "mid", "end", "trail1", "traillast"}
-      [] f = "ctext" -> {"2"}
       [] f = "order" -> {"projlast", "modsfirst", "mixed"}  \* where proj= and the modifiers stand in a step
       [] f = "hdr"   -> {"projlast"}                  \* inv globals proj=pipeline
       [] f = "outer" -> {"lead", "trail", "both"}
 PjNonDefault(l) == {f \in PjFields : l[f] # PjDefault[f]}
-PjFieldOrder == <<"plus", "eq", "lines", "eol", "cpos", "ctext", "order", "hdr", "outer">>
+PjFieldOrder == <<"plus", "eq", "lines", "eol", "cpos", "order", "hdr", "outer">>
 
 PjHasEol(p, l) == (p.pipe /\ l["lines"] # "one") \/ l["cpos"] \in {"top", "mid", "end", "trail1"} \/ l["outer"] \in {"trail", "both"}
 
@@ -111,7 +110,6 @@ PjApplicable(p, l) ==
     /\ "lines" \in D => p.pipe
     /\ "hdr" \in D   => p.pipe /\ (p.ginv \/ Len(p.globals) > 0)
     /\ "eol" \in D   => PjHasEol(p, l)
-    /\ "ctext" \in D => l["cpos"] # "none"
     /\ l["cpos"] \in {"mid", "trail1"} => p.pipe
     /\ l["order"] = "mixed" => \E i \in 1..Len(p.steps) : Len(p.steps[i].args) >= 1
     /\ l["order"] = "modsfirst" => \E i \in 1..Len(p.steps) : p.steps[i].inv \/ p.steps[i].of \/ p.steps[i].oi
@@ -143,7 +141,9 @@ HeaderElems(p, l) ==
 
 Elems(es, l) == Sx!Spaced([i \in 1..Len(es) |-> Plus(es[i], l)])
 
-PjComment(l) == IF l["ctext"] = "1" THEN <<"#", " ", "c">> ELSE <<"#", " ", "a", " ", "|", " ", "b">>
+\* (a comment that contains '|' is not generated: parse_proj documents that a text with a '|' "does not look like a
+\* PROJ string" and is passed on unchanged)
+PjComment(l) == <<"#", " ", "c">>
 
 PjRender(p, l) ==
     LET e == PjEol(l)
@@ -241,6 +241,10 @@ OmitMeaning == ~Refused(Case) =>
             orig(i) == IF Pj.ginv THEN Pj.steps[n + 1 - i] ELSE Pj.steps[i]
             od == IF Pj.ginv THEN P!Flip(d) ELSE d
         IN \A i \in 1..n : P!Skipped(t[i], d) = ((od = "F" /\ orig(i).of) \/ (od = "I" /\ orig(i).oi))
+
+\* Syntax's canonical text of a definition is Pipeline's DefText in the suffix style
+\* (where Pipeline can write the values: plain integers)
+CanonAgrees == IsProbeCase => Sx!CanonText(Translate(Pj)) = P!DefText(Translate(Pj), "suffix")
 
 \* ---- what the harness is told ---------------------------------------------
 PjChoiceText(l) == LET s == SelectSeq(PjFieldOrder, LAMBDA f : l[f] # PjDefault[f])
